@@ -31,7 +31,25 @@ def _add(c, out, depth=0):
         out.add(int.from_bytes(c, "big"))
 
 
+_DIGITS = None
+
+
+def _add_name(name, out):
+    """Numbers that live inside IDENTIFIERS ('BIP86', 'sha512', 'p2wsh_v16'): a value recovered at run time with int(name[3:])
+    is written down in the code as well - just not as an integer constant.  (String constants are not scanned: test vectors
+    and docstrings are full of digits that mean nothing.)"""
+    global _DIGITS
+    if _DIGITS is None:
+        import re
+        _DIGITS = re.compile(r"[0-9]{1,10}")
+    if isinstance(name, str) and len(name) <= 64:
+        for m in _DIGITS.findall(name):
+            out.add(int(m))
+
+
 def _walk(co, out):
+    for nm in co.co_names + co.co_varnames + (co.co_name,):
+        _add_name(nm, out)
     for c in co.co_consts:
         if isinstance(c, types.CodeType):
             _walk(c, out)
@@ -62,10 +80,12 @@ def ints(repo_dir):
         for k, v in list(vars(mod).items()):
             if k.startswith("__"):
                 continue
+            _add_name(k, out)
             _add(v, out)
             if isinstance(v, type) and getattr(v, "__module__", "") == name:
                 for ck, cv in list(vars(v).items()):
                     if not ck.startswith("__"):
+                        _add_name(ck, out)
                         _add(cv, out)
             if callable(v) and hasattr(v, "cache_parameters"):
                 try:
